@@ -213,6 +213,55 @@ Definition step (cfg : config) (q : qstate) (i : input) : bool * qstate * list o
         end
   end.
 
+(* ---- one read on one connection (read_answers), seen from one query ----
+   The library reads everything available on the connection and then walks through the
+   messages.  A reply may detach the query into the requeue array (entries are re-sent only
+   after the walk); a message that does not parse makes process_answer fail: the walk stops,
+   the rest of the data is lost, handle_conn_error closes the connection (every query still
+   outstanding on it is re-queued directly), and then - on EVERY way out of the walk - the
+   requeue array is flushed.  [flush_on_error = false] is the variant that skips the flush
+   when the walk ended with an error (the array is destroyed with its entries). *)
+Inductive batch_item := BReply (r : reply) | BMalformed.
+
+(* the walk; the boolean tells whether it ended on the error path.
+   this_conn: the connection being read is the one the query is outstanding on (if any) *)
+Fixpoint read_walk (cfg : config) (servers : Z) (on_tcp this_conn : bool) (q : qstate)
+         (items : list batch_item) : qstate * list output * bool :=
+  match items with
+  | [] => (q, [], false)
+  | BReply r :: rest =>
+      let '(_, q1, o1) := step cfg q (IReply servers on_tcp this_conn r) in
+      let '(q2, o2, e) := read_walk cfg servers on_tcp this_conn q1 rest in
+      (q2, o1 ++ o2, e)
+  | BMalformed :: _ =>
+      let outstanding_here :=
+        this_conn && match q_conn q with Some c => Bool.eqb c on_tcp | None => false end in
+      if outstanding_here then
+        let '(_, q1, o1) := step cfg q (IConnClosed servers ARES_EBADRESP) in (q1, o1, true)
+      else (q, [], true)
+  end.
+
+(* the flush after the walk: pops the query's entry (ares_send_query runs next: q_sending) *)
+Definition read_flush (cfg : config) (flush_on_error had_error : bool) (q : qstate) : qstate :=
+  if had_error && negb flush_on_error then set_queued q O       (* array destroyed, entries lost *)
+  else match q_queued q with
+       | O => q
+       | S _ => let '(_, q', _) := step cfg q IFlush in q'
+       end.
+
+Definition read_batch (cfg : config) (flush_on_error : bool) (servers : Z) (on_tcp this_conn : bool)
+           (q : qstate) (items : list batch_item) : qstate * list output :=
+  let '(q1, o1, e) := read_walk cfg servers on_tcp this_conn q items in
+  (read_flush cfg flush_on_error e q1, o1).
+
+(* a query the library will still act upon: completed, being sent, or outstanding on a
+   connection (then it is also in the timeout index); and nothing left in a requeue array *)
+Definition settled (q : qstate) : Prop :=
+  q_queued q = O /\ (q_ended q <> None \/ q_sending q = true \/ q_conn q <> None).
+(* detached from everything: no connection, no timer, not being sent, not completed *)
+Definition orphaned (q : qstate) : Prop :=
+  q_ended q = None /\ q_sending q = false /\ q_conn q = None.
+
 (* ---- traces ---- *)
 Inductive event := EvIn (i : input) | EvOut (o : output).
 
